@@ -19,7 +19,9 @@ LEVEL_TEXT = ('Decides clauses C15-a..f: every SchemaType::NAME is a JSON Schema
               '401 overrides openapi_map_operation with a security requirement; the route table the document is generated from only ever accumulates (registering or '
               'mounting onto an existing route extends its method map, never replaces it); the builder methods whose calls C15-b counts (Operation::param, '
               'Schema::property/optional, Paths::at) add their element unconditionally on every call; RawSchema::into_properties flags a property as required by '
-              'membership of its name in the whole `required` list. Decides these clauses, not document <=> application for all applications.')
+              'membership of its name in the whole `required` list; the router the document is generated from is the result of Ohkami::into_router on this '
+              "application's router and fangs (the step in which the top-level fangs map their security requirements and tags into the operations, and which the "
+              'served application takes too). Decides these clauses, not document <=> application for all applications.')
 
 JSON_SCHEMA_TYPES = {"string", "number", "integer", "boolean", "array", "object", "null", ""}
 FIXED = {
@@ -58,6 +60,7 @@ def run(ck, progs):
         ck.guard("C15-d PAIR route table", lambda: c15d(ck, prog))
         ck.guard("C15-e MUSTPASS accumulators", lambda: c15e(ck, prog))
         ck.guard("C15-f PAIR required flag", lambda: c15f(ck, prog))
+        ck.guard("C15-g MUSTPASS document built from the served router", lambda: c15g(ck, prog))
     ck.config = None
 
 
@@ -364,3 +367,26 @@ def c15f(ck, prog):
               "" if ok else "into_properties computes the `required` flag of a property as `%s`: it is not the membership of the property's name in the whole `required` list, so with the name-sorted "
               "property map and the declaration-ordered required list a required field (`{name, age}` -> `age`) is documented as optional" % d[:80],
               how="required.contains(&name)")
+
+
+def c15g(ck, prog):
+    """`the document describes the application`: security requirements and tags are written into the operations by the
+    fangs' openapi_map_operation while the application's own fangs are applied, which happens in Ohkami::into_router -- the
+    same step the served application goes through. The router the document is generated from must be the result of
+    into_router() on an Ohkami carrying this application's router *and fangs*."""
+    R = "C15-g MUSTPASS document built from the served router"
+    fs = [f for f in prog.fns.values() if f.crate == "ohkami" and f.calls_to(r"router::r#final::Router::gen_openapi_doc$|Router::gen_openapi_doc$") and "ohkami::ohkami::" in f.key]
+    if len(fs) != 1:
+        raise AnchorLost("expected one function of Ohkami that generates the document (calls Router::gen_openapi_doc), found %d" % len(fs))
+    f = fs[0]
+    fin = f.calls_to(r"router::base::Router::finalize$")
+    ok = len(fin) == 1
+    d = decision.describe_deep(f, fin[0].args[0], 8) if ok else ""
+    ok = ok and re.search(r"into_router\(", d) is not None and re.search(r"arg1\.fangs", d) is not None and re.search(r"arg1\.router", d) is not None
+    ck.ob(R, "document:into_router-before-finalize", ok, f.loc(fin[0].sp if fin else None),
+          "" if ok else "the document is generated from `%s`: the application's own fangs are applied to the router in Ohkami::into_router, so without it the security requirements and tags contributed by the "
+          "top-level fangs (BasicAuth, JWT, Tag) are missing from a document whose application does enforce them" % d[:120],
+          how="finalize(into_router(Ohkami { router: self.router.clone(), fangs: self.fangs.clone() }))")
+    # ... and the served application takes the same step
+    howl = [g for g in prog.fns.values() if g.crate == "ohkami" and "ohkami::ohkami::" in g.key and g.calls_to(r"Ohkami::into_router$") and g.key != f.key]
+    ck.floor(R, "other users of into_router (the served application)", len(howl), 1)
